@@ -5685,12 +5685,15 @@ class PyCdlib:
         else:
             if rec.parent is None:
                 return '/'
-            if rec.file_ident is not None:
-                encoding = rec.file_ident.encoding
-            else:
-                encoding = 'utf-8'
             udf_rec = rec  # type: Optional[udfmod.UDFFileEntry]
             while udf_rec is not None:
+                # Each UDF File Identifier carries its own encoding (8-bit
+                # or 16-bit OSTA compressed unicode), so decode each path
+                # component with the encoding of its own identifier.
+                if udf_rec.file_ident is not None and udf_rec.file_ident.encoding:
+                    encoding = udf_rec.file_ident.encoding
+                else:
+                    encoding = 'utf-8'
                 ident = udf_rec.file_identifier()
                 if ident == b'/':
                     name = b''
